@@ -200,9 +200,13 @@ def oracle(case):
     head = '@charset "%s";' % sh.encoding
     if not d.startswith(head) or not b.startswith("".encode(e) + head.encode(e)[len("".encode(e)):]):
         return ("output does not begin with the @charset rule naming the encoding", d[:40])
-    if d != expected_escaped(text, e):
-        return ("an unencodable character is not written as backslash-HEX-space (or an encodable one is)",
-                "decoded %r expected %r" % (d[:80], expected_escaped(text, e)[:80]))
+    # "represents every character the encoding cannot express as a CSS escape": resolving the escapes of the
+    # decoded text gives the text (nothing glued, nothing eaten), and exactly the unencodable characters were escaped
+    # (the exact spelling backslash-HEX-space is the model correspondence's business, not the property's)
+    n_unenc = sum(1 for ch in text if expected_escaped(ch, e) != ch)
+    if resolve(d) != resolve(text) or len(ESC.findall(d)) - len(ESC.findall(text)) != n_unenc:
+        return ("the decoded output does not stand for the sheet's text with exactly the unencodable characters escaped",
+                "decoded %r, text %r" % (d[:80], text[:80]))
     det = _codec3.detectencoding_str(b, True)[0]
     try:
         if norm_enc(det) != norm_enc(e):
@@ -349,10 +353,10 @@ def history_oracle(case):
                 raised = type(ex).__name__
             where = "after assignment %d (%r%s, raiseExceptions=%s)" % (k, name, " -> " + raised if raised else "", bool(rx))
             after = sheet_state(sh)
-            if name is None:
+            if not name:       # None or '' (falsy): "removes charsetrule if present" (cssstylesheet._setEncoding)
                 accepted = raised is None
                 if accepted and (after[0] != "utf-8" or 2 in after[2]):
-                    return ("encoding = None did not remove the @charset rule", where)
+                    return ("a falsy encoding did not remove the @charset rule", where)
             else:
                 try:
                     accepted = raised is None and codecs.lookup(after[0]).name == codecs.lookup(name).name \
@@ -362,7 +366,7 @@ def history_oracle(case):
                 if raised is None and rx and not accepted and codec_kind(name) is not None and isinstance(name, str) \
                         and re.fullmatch(r"[A-Za-z_][A-Za-z0-9_-]*", name):
                     return ("a usable encoding was silently not assigned", where)
-            if accepted and name is not None and codec_kind(name) is None:
+            if accepted and name and codec_kind(name) is None:
                 return ("an encoding the serializer cannot write was accepted", where)
             if not accepted and after != before:
                 return ("a refused encoding assignment changed the sheet",
@@ -585,6 +589,40 @@ def impl_sheet(case):
         return ["EXC", type(ex).__name__ + ": " + str(ex)[:100], []]
 
 
+IDENT_NAME = re.compile(r"-?[A-Za-z_][A-Za-z0-9_-]*\Z")
+
+
+def usable_name(name):
+    """independent statement of which names the charset rule's setter must accept: an identifier naming a codec
+    with which the serializer can write the rule"""
+    return bool(name) and bool(IDENT_NAME.match(name)) and codec_kind(name) is not None
+
+
+def impl_history(case):
+    """(source, names, raise mode) -> [final encoding, final decoded text, initial rules in wire form]"""
+    src, names, rx = case
+    cp = quiet()
+    try:
+        sh = cp.parseString(src)
+        rules = []
+        for r in sh.cssRules:
+            if r.type == r.CHARSET_RULE:
+                rules.append("C." + cpl(r.encoding, "."))
+            elif r.cssText:
+                rules.append("O." + cpl(r.cssText, "."))
+        cp.log.raiseExceptions = bool(rx)
+        for n in names:
+            try:
+                sh.encoding = n
+            except Exception:  # noqa
+                pass
+        return [sh.encoding, sh.cssText.decode(sh.encoding), rules]
+    except Exception as ex:  # noqa
+        return ["EXC", type(ex).__name__ + ": " + str(ex)[:100], []]
+    finally:
+        cp.log.raiseExceptions = False
+
+
 def impl_detect(b):
     from css_parser import _codec3
     return list(_codec3.detectencoding_str(bytes(b), True))
@@ -778,6 +816,29 @@ def run(ctx):
             exp = [uncpl(o), True] if o != "NONE" else ["utf-8", False]
             if r != exp:
                 mism.append(("detect", b.decode("latin-1"), r, o))
+    hists, n_hexh = gen_histories(rng, 6000 if thorough else 800)
+    if binary:
+        # (f) histories of encoding assignments: final encoding and text
+        himpl = ctx.pool_map(impl_history, hists, procs=P, chunksize=64)
+        lines, keep = [], []
+        for c, i in zip(hists, himpl):
+            if i[0] == "EXC":
+                mism.append(("history", c, i[:2]))
+                continue
+            ops = ";".join("0" if not n else ("+" if usable_name(n) else "-") + cpl(n, ".").replace("-", "")
+                           for n in c[1]) or "-"
+            keep.append((c, i))
+            lines.append("A %s %s" % (";".join(i[2]) or "-", ops))
+        out = ctx.run_binary(binary, lines, shards=P) if lines else []
+        for (c, i), o in zip(keep, out):
+            n_model += 1
+            try:
+                me, mt = o.split("|")
+                ok = uncpl(me) == i[0] and expected_escaped(uncpl(mt), i[0]) == i[1]
+            except Exception:  # noqa
+                ok = False
+            if not ok:
+                mism.append(("history", c, i[:2], o[:200]))
     if mism:
         ctx.broken("correspondence", "EscapeEnc model vs implementation",
                    "%d of %d cases differ; first: %s" % (len(mism), n_model, json.dumps(mism[:3], default=str)[:1500]))
@@ -785,7 +846,7 @@ def run(ctx):
     # ---- property-level oracle on the implementation
     corpus = json.loads((VERIF / "corpus/C13.json").read_text()) if (VERIF / "corpus/C13.json").exists() else []
     sheets, n_exh = gen_sheets(rng, 1500 if thorough else 250)
-    cases = [(c["src"], c["encoding"]) for c in corpus]
+    cases = [(c["src"], c["encoding"]) for c in corpus if "encoding" in c]
     for k, e in enumerate(codecs_used):
         if thorough:
             pool = sheets if e in QUICK_CODECS else sheets[k % 9::9]
@@ -807,6 +868,14 @@ def run(ctx):
             not_stable.add(srcx)
         elif r:
             ctx.violation(r[0], {"src": srcx, "encoding": e, "detail": r[1]}, sig_text=r[1])
+    hcorpus = [(c["src"], c["history"], c.get("raise", 1)) for c in corpus if "history" in c]
+    hres = ctx.pool_map(history_safe, hcorpus + hists, procs=P, chunksize=64)
+    hist_skipped = 0
+    for c, r in zip(hcorpus + hists, hres):
+        if r and r[0] == "SKIP":
+            hist_skipped += 1
+        elif r:
+            ctx.violation(r[0], {"src": c[0], "history": c[1], "raise": c[2], "detail": r[1]}, sig_text=r[1])
     # known findings: re-run the stored witnesses
     for f in ctx.findings:
         if f.get("status") == "open":
@@ -828,6 +897,19 @@ def run(ctx):
                     best = (s_, e, r)
                     break
         if best is None:
+            hs, _ = gen_histories(rng, 1500)
+            out = ctx.pool_map(history_safe, hs, procs=P, chunksize=64)
+            for c, r in zip(hs, out):
+                if r and r[0] != "SKIP" and not ctx.match_known(r[0] + " :: " + r[1]):
+                    names = list(c[1])
+
+                    def hfails(cand):
+                        rr = history_safe((c[0], list(cand), c[2]))
+                        return bool(rr) and rr[0] == r[0]
+                    from harness.lib import shrink_seq as _sh
+                    names = _sh(names, hfails) or names
+                    return {"src": c[0], "history": list(names), "raise": c[2], "fails": r[0],
+                            "detail": (history_safe((c[0], list(names), c[2])) or r)[1]}
             return None
         s_, e, r = best
         from harness.lib import shrink_seq
@@ -840,7 +922,7 @@ def run(ctx):
         return {"src": small, "encoding": e, "fails": r[0], "detail": (oracle_safe((small, e)) or r)[1]}
 
     ctx.finish({
-        "evaluations": len(cases) + n_model,
+        "evaluations": len(cases) + n_model + len(hists),
         "distinct_nontrivial": len(nontrivial),
         "rule": "end-to-end: %d position templates x %d planted characters x the follow strings of each position "
                 "(%d sheets, exhaustive part) + random sheets with 1-4 planted positions, each x %d codecs; "
@@ -848,7 +930,15 @@ def run(ctx):
                 "i.e. the escape path runs; model correspondence: handler text per code point, "
                 "encode/decode/resolve of random texts per codec, tokens of escaped sheets, sheet text + detection"
                 % (len(POSITIONS), len(PLANT), n_exh, len(codecs_used)),
-        "samples": [list(c) for c in cases[len(corpus) + 7:len(corpus) + 10]] + [list(cases[-1])],
+        "samples": [list(c) for c in cases[len(corpus) + 7:len(corpus) + 10]] + [list(cases[-1])] + [list(hists[5]), list(hists[-1])],
+        "history_cases": len(hists),
+        "history_rule": "every codec name the interpreter knows (%d: text, non-text, special) + %d odd / invalid names, each "
+                        "as the only assignment on a sheet without and with an @charset rule in both raiseExceptions modes "
+                        "and between two good assignments (%d histories, exhaustive part), + random histories of 1-4 "
+                        "assignments (odd-case aliases, None); after every assignment: refused => encoding and bytes "
+                        "unchanged; bytes decode under sheet.encoding, matching @charset first, re-parse to the same model"
+                        % (len(all_codec_names()), len(ODD_NAMES), n_hexh),
+        "history_skipped_initial_sheet": hist_skipped,
         "disagreements_checked": n_model,
         "oracle_cases": len(cases),
         "model_cases": n_model,
@@ -867,6 +957,12 @@ def replay(ctx, path):
     bad = 0
     for v in rep.get("violations", []):
         w = v["witness"]
+        if "history" in w:
+            r = history_safe((w["src"], w["history"], w.get("raise", 1)))
+            print("replay %r history %r raise=%s -> %s" % (w["src"], w["history"], w.get("raise", 1),
+                                                            (r[0] + " :: " + r[1]) if r else "holds"))
+            bad += bool(r) and r[0] != "SKIP"
+            continue
         r = oracle_safe((w["src"], w["encoding"]))
         print("replay %r under %s -> %s" % (w["src"], w["encoding"], (r[0] + " :: " + r[1]) if r else "holds"))
         bad += bool(r) and r[0] != "SKIP"
